@@ -87,7 +87,15 @@ class Kinematics:
                     return
         # --- whole step (works for YAML-built stacks too)
         pose = list(mw['agent'][:3])
-        for name in chain:
+        logged = cl.proxied and len(ev['complog']) == len(chain)
+        obstacles_unknown = False
+        for ci, name in enumerate(chain):
+            if obstacles_unknown and name == 'pickndrop' and mw['agent'][3][0] == 'Telepod' and 'teleport' in chain[ci:]:
+                # whether the held telepod can be dropped (creating a partner, hence a teleport) depends on where the
+                # obstacles went, which only the component log knows
+                sim.ctx.undecided['drop_of_held_telepod_after_unobserved_obstacle_motion'] += 1
+                teleported = True
+                break
             if name == 'move_agent':
                 M.move_agent(mw, a)
             elif name == 'turn_agent':
@@ -100,7 +108,17 @@ class Kinematics:
             elif name in M.DETERMINISTIC:
                 M.DETERMINISTIC[name](mw, a)
             elif name == 'move_obstacles':
-                pass  # swaps floor and obstacle cells only: neither blocks movement nor is a telepod
+                # swaps floor and obstacle cells only: neither blocks movement nor is a telepod - but a later drop needs
+                # a Floor cell in front, so the model follows the obstacles where they really went (C11 judges where
+                # they may go)
+                if logged:
+                    after = ev['complog'][ci][2]
+                    for y in range(mw['h']):
+                        for x in range(mw['w']):
+                            if mw['cells'][y][x][0] in ('MovingObstacle', 'Floor') and after['cells'][y][x][0] in ('MovingObstacle', 'Floor'):
+                                mw['cells'][y][x] = list(after['cells'][y][x])
+                elif any(c[0] == 'MovingObstacle' for row in mw['cells'] for c in row):
+                    obstacles_unknown = True
             elif name.startswith('coin_env:') or name == 'collect_coin_transition':
                 pass
         if not teleported:
